@@ -40,6 +40,21 @@ ImplRead(st, n) ==  \* returns <<result, new state>>
   IN IF s2.none THEN << <<>>, s2 >>
      ELSE << SubSeq(s2.buf, 1, Min(n, Len(s2.buf))), [s2 EXCEPT !.buf = SubSeq(@, Min(n, Len(@)) + 1, Len(@))] >>
 
+\* the design that collects the items of one read() call in a local variable and stores it back only when enough has arrived:
+\* a call that runs into the end of the channel forgets what it had received (mutant, must not be a file)
+ImplReadLossy(st, n) ==
+  LET r == ImplRead(st, n) IN
+  IF Len(r[1]) < n /\ r[2].q = <<>> /\ st.q # <<>>       \* the end of the channel was met inside this call, after receiving something
+  THEN LET back == [st EXCEPT !.q = <<>>] IN               \* self._buffer as before the call, the items are gone
+       IF back.none THEN << <<>>, back >>
+       ELSE << SubSeq(back.buf, 1, Min(n, Len(back.buf))), [back EXCEPT !.buf = SubSeq(@, Min(n, Len(@)) + 1, Len(@))] >>
+  ELSE r
+RECURSIVE ImplRunLossy(_, _)
+ImplRunLossy(st, ops) ==       \* (read() calls only)
+  IF ops = <<>> THEN <<>>
+  ELSE LET r == ImplReadLossy(st, Head(ops)[2]) IN <<r[1]>> \o ImplRunLossy(r[2], Tail(ops))
+ImplLossy(items, ops) == ImplRunLossy([buf |-> <<>>, none |-> TRUE, q |-> items], ops)
+
 RECURSIVE ReadMore(_, _)
 ReadMore(line, st) ==   \* while line and line[-1] != "\n": c = read(1); if not c: break; line += c
   IF line = <<>> \/ line[Len(line)] = NL THEN <<line, st>>
